@@ -441,8 +441,12 @@ func (r *runner) dec(pkt []byte, what string) result {
 		r.crashes++
 		h.Obs("crash")
 		sig := "decode-fatal"
-		if strings.Contains(res.detail, "out of memory") || strings.Contains(res.detail, "cannot allocate") {
+		if strings.Contains(res.detail, "-byte block") {
+			// the runtime names the single allocation it could not satisfy: attributable to this packet's decoder
 			sig = "decode-fatal-oom-" + guessFormat(pkt)
+		} else if strings.Contains(res.detail, "out of memory") || strings.Contains(res.detail, "cannot allocate") {
+			// address space exhausted by earlier packets' allocations (not necessarily this packet's fault)
+			sig = "decode-fatal-oom"
 		}
 		h.Viol(sig, "the process running parser.parse died (%s) on the %d byte packet %s", res.detail, len(pkt), trunc(verifx.Hex(pkt)))
 	case "hang":
@@ -555,7 +559,7 @@ func genString(r *verifx.Rng, maxLen int) []byte {
 func genMetric(r *verifx.Rng, finite bool) metric {
 	var m metric
 	m.Name = genString(r, 300)
-	if r.Chance(1, 40) {
+	if r.Chance(1, 250) {
 		m.Name = genString(r, 70000) // str32 / TL medium string far beyond 64 KiB
 	}
 	nt := []int{0, 1, 2, 3, 5, 15, 16, 17}[r.Pick(2, 3, 3, 2, 1, 1, 1, 1)]
@@ -1394,10 +1398,10 @@ func main() {
 	}
 	run := &runner{h: h}
 	h.Cases(func(i int, r *verifx.Rng) {
-		if run.crashes >= 3 && h.Only < 0 {
+		if run.crashes >= 12 && h.Only < 0 {
 			// the verdict is settled (each crash is an oracle violation with its packet as replay); do not spend
 			// minutes re-killing the child on the same defect
-			h.Stat("case.skipped-after-3-crashes", 1)
+			h.Stat("case.skipped-after-12-crashes", 1)
 			return
 		}
 		run.reset()
@@ -1533,6 +1537,10 @@ func main() {
 				bombs = tlBombs(r)
 			default:
 				bombs = pbBombs(r)
+			}
+			if run.crashes >= 3 && h.Only < 0 {
+				bombs = nil // a defective tree dies on these every time; three replays are enough
+				h.Stat("case.bombs-skipped-after-3-crashes", 1)
 			}
 			for _, b := range bombs {
 				if r.Bool() {
